@@ -117,7 +117,8 @@ ADDENDA = {
     "C13": " Added to the repeat-run differential: groups whose annotations produce several diagnostics, and every sentence up to 5/6 tokens (class alphabet) and 6..8/9 tokens (conditionals and definitions) with two stray tokens inserted at every pair of positions, tokenised and parsed three times with fresh hash keys.",
     "C14": " Added: printing the result is a stage (as gram check prints it); definitions that contain holes and are used by name, with the late-hole and value-boundary families; at process level `gram run FILE` and `gram FILE` on every file case (agreement with each other and with gram check), and every diagnostic of the in-process pipeline must be on stderr, whole and in order.",
     "C15": " Added: compound offenders (every kind of compound expression where another class is required; some diagnostic must mark exactly the compound) and definition-order diagnostics (the excerpt lies inside the definition the message names).",
-    "C18": " Added: programs whose parameters have an implicit function type, met by parameters over implicit and explicit function types.",
+    "C19": " Added: rewrites at every annotated definition (an unused local definition, a naming, an identity wrapper at the declared type, `if true` around its right-hand side; the declared type named by an alias), and values with implicit binders and programs with un-annotated parameters as initial states; F-HOLE-COPY seen through such a rewrite is a known finding with its own classifier.",
+    "C18": " Added: solved holes seen from deeper scopes (normalising Unifier(cell := X, shift k) against normalising X shifted by k, under every context of up to four parameters / definitions); programs whose parameters have an implicit function type, met by parameters over implicit and explicit function types.",
 }
 
 NOT_YET = "check not built yet (work in progress; see DESIGN.md section 13 for the build order)"
